@@ -74,16 +74,18 @@ type Section struct {
 }
 
 type TxTruth struct {
-	Spec     TxSpec
-	Sig      solana.Signature
-	Cid      cid.Cid
-	Slot     uint64
-	Position int
-	TxBytes  []byte // serialized solana transaction
-	Meta     []byte // uncompressed metadata (nil when NoMeta)
-	Accounts []solana.PublicKey
-	Loaded   []solana.PublicKey
-	Section  int // index into Sections
+	Spec         TxSpec
+	Sig          solana.Signature
+	Cid          cid.Cid
+	Slot         uint64
+	Position     int
+	TxBytes      []byte // serialized solana transaction
+	Meta         []byte // uncompressed metadata (nil when NoMeta)
+	Accounts     []solana.PublicKey
+	Loaded       []solana.PublicKey
+	Section      int     // index into Sections
+	TokenUi      float64 // pre token balance uiAmount recorded in the metadata (0 = none)
+	ComputeUnits uint64
 }
 
 type BlockTruth struct {
@@ -378,6 +380,19 @@ func (b *builder) tx(bs BlockSpec, ts TxSpec, pos int) (*TxTruth, error) {
 			pk := Account(seed, a)
 			tt.Loaded = append(tt.Loaded, pk)
 			m.LoadedWritableAddresses = append(m.LoadedWritableAddresses, pk[:])
+		}
+		// numeric payload that must survive every encoding digit for digit: token balances with 9 decimals, compute units
+		if ts.SigID%2 == 0 {
+			ui := 0.123456789 + float64(ts.SigID%5)
+			tt.TokenUi, tt.ComputeUnits = ui, 1234567+uint64(ts.SigID)
+			tb := func(amount float64) *confirmed_block.TokenBalance {
+				return &confirmed_block.TokenBalance{AccountIndex: 0, Mint: Account(seed, 500).String(), Owner: Account(seed, 501).String(), ProgramId: solana.TokenProgramID.String(),
+					UiTokenAmount: &confirmed_block.UiTokenAmount{UiAmount: amount, Decimals: 9, Amount: fmt.Sprintf("%d", int64(amount*1e9)), UiAmountString: fmt.Sprintf("%.9f", amount)}}
+			}
+			m.PreTokenBalances = []*confirmed_block.TokenBalance{tb(ui)}
+			m.PostTokenBalances = []*confirmed_block.TokenBalance{tb(ui + 1e-9)}
+			cu := tt.ComputeUnits
+			m.ComputeUnitsConsumed = &cu
 		}
 		// every metadata payload is unique (a well-formed CAR has distinct CIDs, also for continuation frames)
 		m.LogMessages = []string{fmt.Sprintf("tx %d/%d", seed, ts.SigID)}
